@@ -129,10 +129,21 @@ def check(ctx):
                             cfg(seed, max(2, (251 if quick else 31) // 5 ** k), 3, 3, {'new'}, {'convert', 'observe'}))
         if n2 > 0:
             break
+    # repeated canonicalization of a segment (canonical_form inside non-unitary apply_local_op, spec MPSTransform): the state
+    # is compared in the fixed outer Schmidt bases, U_L . psi . V_R with the accumulated segment_boundaries
+    from checks import c09
+    n3 = 0
+    for k in range(4):
+        n3 += mc_and_replay(ctx, 'segment-recanon' if k == 0 else 'segment-recanon+%d' % k,
+                            c09.cfg(seed, max(2, (401 if quick else 53) // 2 ** k), 3, 2, ops={'apply_local_op', 'canonical_form', 'convert_form'},
+                                    bcs=('segment',)),
+                            spec=c09.SPEC, handlers=c09.HANDLERS, leaf=c09.leaf(2))
+        if n3 > 0:
+            break
     ctx.notes['uncovered_actions'] = sorted(a for a in ('DoNew', 'DoProduct', 'DoLatProduct', 'DoSinglets', 'DoCovering', 'DoFromFull',
                                                         'DoFromBflat', 'DoConvert', 'DoSetB', 'DoObserve', 'DoCanonical')
                                             if ctx.coverage_actions.get(a, (0, 0))[0] == 0)
-    ctx.notes['behaviours'] = dict(wide=n1, deep=n2)
+    ctx.notes['behaviours'] = dict(wide=n1, deep=n2, segment_recanon=n3)
     ctx.notes['replay_wall_s'] = round(time.time() - t0, 1)
 
 
